@@ -40,6 +40,7 @@ K_HDR = 'report:header-like-noise-line:taken-as-header'
 K_GLUE_LOST = 'report:unterminated-noise-before-header:report-not-recognised'
 K_GLUE_NUM = 'report:unterminated-digit-noise-before-header:wrong-count'
 K_CR = 'report:name-with-carriage-return:split-into-two-names'
+K_UXS = 'child-report:unexpected-success-entry:TypeError-in-report'
 
 
 # --------------------------------------------------------------------------
@@ -124,7 +125,10 @@ def judge(case, obs, want_fails, want_errs, delivered):
                 'failures=%r errors=%r exc=%s; child said ran=%r failures=%r '
                 'errors=%r' % (obs['num_ran'], got_f[:4], got_e[:4],
                                obs['exc'], case['ran'],
-                               (want_fails or [])[:4], (want_errs or [])[:4]))
+                               (want_fails if want_fails is not None
+                                else case['fails'])[:4],
+                               (want_errs if want_errs is not None
+                                else case['errs'])[:4]))
         if _noise_has_header(pre):
             return K_HDR, what
         if _unterminated(pre):
@@ -183,13 +187,23 @@ def check_fake(case):
 
 
 def check_roundtrip(case):
-    wire = cw.real_child_report(case['ran'], case['fails'], case['errs'],
-                                processes=case.get('processes', 2))
+    wire, exc = cw.real_child_report(
+        case['ran'], case['fails'], case['errs'],
+        processes=case.get('processes', 2),
+        bare_fails=case.get('bare_fails', ()))
     spec = {'stdout': '', 'stderr': case.get('pre', '') + cw.b2s(wire)}
     obs = cw.run_spawn(spec, layer_name=LAYER, verbose=case.get('verbose', 0))
-    wf = [cw.norm(n) for n in case['fails']]
+    wf = [cw.norm(n) for n in case['fails'] + list(case.get('bare_fails', ()))]
     we = [cw.norm(n) for n in case['errs']]
-    return judge(case, obs, wf, we, True)
+    verdict = judge(case, obs, wf, we, True)
+    if exc is not None and verdict is not None:
+        # the real child side itself raised while writing its report, on
+        # a failures list of the shape the real runner builds
+        return (K_UXS, 'SubProcess.report() raised %s: %s after writing %r; '
+                'parent then recorded ran=%r failures=%r errors=%r exc=%s' % (
+                    type(exc).__name__, exc, wire[:60], obs['num_ran'],
+                    obs['failures'][:3], obs['errors'][:3], obs['exc']))
+    return verdict
 
 
 # --------------------------------------------------------------------------
@@ -233,6 +247,10 @@ def real_worlds(tier):
                                         [('kill', 'SIGKILL')])]},
             {'name': 'L2', 'tests': [_t('test_a', 'error')]}]},
         ['-j3', '-v']))
+    ws.append(('unexpected-success', {
+        'layers': [
+            {'name': 'L1', 'tests': [_t('test_a', 'pass'),
+                                     _t('test_ux', 'uxsuccess')]}]}, ['-j2']))
     ws.append(('fd2-unterminated', {
         'layers': [
             {'name': 'L1', 'tests': [
@@ -344,6 +362,9 @@ def check_real(case):
     fd2 = ''.join(a[1] for a in acts if a[0] == 'fd2')
     if spawn_fails:
         return K_SPAWN, what
+    if any(t.get('outcome') == 'uxsuccess' for ly in world['layers']
+           for t in ly['tests']):
+        return K_UXS, what
     if fd2 and _noise_has_header(fd2):
         return K_HDR, what
     if fd2 and _unterminated(fd2):
@@ -378,7 +399,23 @@ def base(kind='fake', **kw):
     return c
 
 
+def gen_canonical():
+    """the smallest telling case of every known defect first (preferred as the
+    stored case of its key)"""
+    yield base(ran=1, fails=[NAMES[0]], pre='0 0 0\n', canon=1)
+    yield base(ran=3, fails=['f1', 'f2'], cut=len('3 2 0\nf1\n'), canon=1)
+    yield base(ran=3, fails=['f1', 'f2'], cut=len('3 2 0\nf1\nf'), canon=1)
+    yield base(ran=1, fails=[NAMES[0]], popen_raises=errno.ENOENT, canon=1)
+    yield base(ran=1, fails=[BAD_UTF], canon=1)
+    yield base(ran=1, fails=[NAMES[0]], pre='abc', canon=1)
+    yield base(ran=3, pre='1', canon=1)
+    yield base(ran=1, fails=['a\rb'], canon=1)
+    yield base('roundtrip', ran=1, bare_fails=['ux (m.T.ux)'], canon=1)
+
+
 def gen_enumerated(tier):
+    for c in gen_canonical():
+        yield c
     # A. well-formed reports x noise x collectors
     shapes = [(0, [], []), (1, [], []), (3, [NAMES[0]], []),
               (3, [], [NAMES[0]]), (12, NAMES[:3], NAMES[3:5]),
@@ -450,6 +487,9 @@ def gen_enumerated(tier):
                        processes=procs)
             yield base('roundtrip', ran=2, fails=[n], errs=[],
                        pre='warning: x\n', processes=procs)
+    yield base('roundtrip', ran=1, fails=[], errs=[], bare_fails=['ux (m.T.ux)'])
+    yield base('roundtrip', ran=3, fails=['f1'], errs=['e1'],
+               bare_fails=['ux (m.T.ux)'])
     yield base('roundtrip', ran=1, fails=['a\rb'], errs=[])
     yield base('roundtrip', ran=1, fails=['a\r\nb'], errs=['c'])
     yield base('roundtrip', ran=1, fails=['one'], errs=[], pre='0 0 0\n')
@@ -500,8 +540,8 @@ def signature(case):
     """what makes a case non-trivially distinct"""
     if case['kind'] == 'real':
         return ('real', case['name'])
-    return json.dumps({k: v for k, v in case.items() if k != 'timeout'},
-                      sort_keys=True)
+    return json.dumps({k: v for k, v in case.items()
+                       if k not in ('timeout', 'canon')}, sort_keys=True)
 
 
 def check(case):
@@ -513,7 +553,7 @@ def check(case):
 
 
 def _size(case):
-    return len(json.dumps(case))
+    return (0 if case.get('canon') else 1, len(json.dumps(case)))
 
 
 def run(budget_s, seed, tier):
@@ -582,7 +622,15 @@ def run(budget_s, seed, tier):
         if len(samples) < 5:
             samples.append({'kind': 'real', 'name': c['name'],
                             'args': c['args']})
-        record(c, verdict)
+        if verdict is not None and verdict[0] in findings and \
+                findings[verdict[0]]['case'] is not c:
+            if '[also end to end' in findings[verdict[0]]['summary']:
+                continue
+            findings[verdict[0]]['summary'] += (
+                ' [also end to end, real -j run of world %r: %s]'
+                % (c['name'], verdict[1][:300]))
+        else:
+            record(c, verdict)
     return {
         'cases': cases, 'distinct': len(seen),
         'rule': 'distinct = different (report, noise, cut offset, stdout, '
